@@ -119,6 +119,26 @@ def execute(pid, unit_cases, run_cases, pairs=None):
                                 sig=h(ca["src"] + json.dumps(ca.get("opts"), sort_keys=True) + json.dumps(cb.get("opts"), sort_keys=True)),
                                 nontrivial="_create" in (ra.get("raw_printed") or ""), detail=d,
                                 impl={"printed_a": ra.get("printed"), "printed_b": rb.get("printed")}))
+        # ---- follow-up cases derived from the first phase (e.g. every output fed back as input)
+        if "followup" in P:
+            fcases = P["followup"](run_cases, recs)
+            frecs = runlib.run_harness(fcases, mode="run")
+            flines, fmeta = [], []
+            for c, r in zip(fcases, frecs):
+                if "in" in r and "out" in r:
+                    flines.append(alpha.self_pair_sexpr(c["id"], "same", c, r))
+                    fmeta.append((c, r))
+                elif "parse_error" in r:
+                    records.append(dict(id=c["id"], kind="run", corr="n/a",
+                                        oracle=("FAIL:output-does-not-reparse:" + str(r["parse_error"])[:80]) if P.get("followup_parse_is_failure") else "skip:parse",
+                                        case=c, sig=h(c["src"]), nontrivial=False, detail=r))
+            for (c, r), o in zip(fmeta, runlib.run_driver(flines, mode=[pid])):
+                d = runlib.parse_driver_line(o)
+                orc = d.get("oracle", "ok")
+                if orc.startswith("FAIL:same"):
+                    orc = orc.replace("FAIL:same", "FAIL:" + P.get("followup_clause", "not-idempotent"), 1)
+                records.append(dict(id=c["id"], kind="run", corr="n/a", oracle=orc, case=c, sig=h(c["src"] + json.dumps(c.get("opts"), sort_keys=True)),
+                                    nontrivial=True, detail=d, impl={"printed": r.get("printed"), "diags": r.get("diags")}))
     return {"records": records}
 
 
@@ -763,4 +783,84 @@ PROPS["C20"] = {
                  "insertBeforeFirstSpread_eq", "C20_user_wins_semantic"],
     "cases": c20_cases,
     "explanation": "oracle: every user-written call of the input is aligned with the same call of the real output; a changed call must be a call of the binding imported by name from 'vue' with resolveType on, must not have a spread among its first two arguments, must keep every user-written option entry in order, and every injected props/emits/name entry must sit BEFORE any user entry or spread that can provide the same key (so that what the user wrote is what Vue receives); name only for `const x = defineComponent(...)` with the variable's name",
+}
+
+
+
+# ---- C09 ---------------------------------------------------------------------------------------------------
+import glob as _glob
+
+SURROUND = ["%s", "try { a = %s; } catch (e) { log(e); } finally { done(); }", "outer: for (;;) { inner: { x = %s; break outer; } }",
+            "switch (k) { case 1: r = %s; break; default: r = null; }", "class Q { static s = 1; #p = 2; get g() { return %s; } static { init(); } }",
+            "const o = { m() { return %s; }, [k]: 1, ...rest };", "async function* ag() { yield %s; await q; }", "if (a) b = %s; else if (c) d(); else { e(); }",
+            "const [p, { q = 2 }] = [%s, {}];", "label: while (x) { do { y = %s; } while (z); }", "export function ef(a = 1, ...r) { return a ? %s : r; }",
+            "new Foo(%s, ...args); tag`t${1}`; a ??= b; c?.d?.(e);", "var v1 = function named() { return typeof %s; }, v2 = void 0;"]
+TS_SURROUND = ["interface I { a: string }\ntype T = I | null;\nenum E { A, B }\nconst t = %s;", "declare const d: number;\nfunction f<T>(x: T): T { return x; }\nconst y = f(%s as any);",
+               "namespace N { export const c = 1; }\nabstract class AC<T> { abstract m(): void; private p?: T; }\nlet z = %s satisfies unknown;"]
+
+
+def jsx_free_corpus():
+    files = sorted(_glob.glob("/repo/visitor/tests/fixture/**/output.js", recursive=True)) + ["/repo/wasm.test.ts"]
+    files += sorted(_glob.glob(os.path.expanduser("~/.cargo/registry/src/*/swc_ecma_transforms_base-12.0.0/src/helpers/*.js")))
+    files += sorted(_glob.glob(os.path.expanduser("~/.cargo/registry/src/*/stateright-*/ui/app.js")))
+    out = []
+    for f in files:
+        try:
+            src = open(f).read()
+        except Exception:
+            continue
+        if len(src) < 60000:
+            out.append((os.path.basename(os.path.dirname(f)) + "/" + os.path.basename(f), src, f.endswith(".ts")))
+    return out
+
+
+def c09_cases(tier, seed):
+    r = gen.Rng(seed)
+    run = corpus_cases("C09")
+    optsets = [{}, {"optimize": True, "transformOn": True}, {"resolveType": True}, {"pragma": "h", "mergeProps": False, "enableObjectSlots": False}]
+    corpus = jsx_free_corpus()
+    for name, src, ts in corpus:
+        for oi, o in enumerate(optsets):
+            if tier == "quick" and oi and (len(run) % 3):
+                continue
+            run.append({"id": "corpus:%s:%d" % (name, oi), "src": src, "tsx": ts or bool(o.get("resolveType")), "opts": o})
+    run += fixture_cases()
+    # JSX embedded in arbitrary surrounding code
+    prof = dict(GENERAL_PROFILE); prof["p_distractor"] = 0.5; prof["depth"] = 2
+    n = budget(tier, 1200, 30000)
+    hist = collections.Counter()
+    for i in range(n):
+        g = gen.Gen(r, prof)
+        parts = [gen.PRELUDE]
+        ts = r.chance(0.2)
+        for j in range(1 + r.below(3)):
+            el = g.element(0) if r.chance(0.8) else r.pick(["1", "fn1()", "obj.a"])
+            sur = r.pick(TS_SURROUND).replace("\\n", "\n") if ts and r.chance(0.5) else r.pick(SURROUND)
+            parts.append(sur % el)
+        hist.update(g.used)
+        run.append({"id": "s%d" % i, "src": "\n".join(parts) + "\n", "tsx": ts, "opts": std_opts(r)})
+    # generated JSX-free modules
+    for i in range(budget(tier, 300, 8000)):
+        g = gen.Gen(r, {"jsx_in_expr": 0})
+        parts = [gen.PRELUDE] + [r.pick(SURROUND) % g.expr(0, allow_jsx=False) for _ in range(1 + r.below(4))]
+        run.append({"id": "f%d" % i, "src": "\n".join(parts) + "\n", "tsx": False, "opts": std_opts(r)})
+    return [], run, {"rule": "JSX-free corpus of %d real files on disk (the 81 fixture outputs, the repo's wasm.test.ts, SWC's runtime helper modules and stateright's UI script from the cargo registry) under 4 option sets; fixtures; %d modules with JSX embedded in try/catch, labelled blocks, switch, classes with fields/accessors/static blocks, object methods, generators, destructuring, default parameters, optional chaining, TS interfaces/enums/namespaces/generics; generated JSX-free modules; and EVERY output of the first phase is fed back as input (idempotence)" % (len(corpus), n),
+                     "histogram": dict(hist.most_common(30))}
+
+
+def c09_followup(cases, recs):
+    out = []
+    for c, r in zip(cases, recs):
+        if r.get("printed") and not r.get("panic") and not r.get("diags"):
+            out.append({"id": c["id"] + ":again", "src": r["printed"], "tsx": c["tsx"], "opts": c["opts"]})
+    return out
+
+
+PROPS["C09"] = {
+    "theorems": ["visit_identity", "visitKids_identity", "kindHook_identity", "exprHook_jsxfree", "C09_module_identity"],
+    "cases": c09_cases,
+    "followup": c09_followup,
+    "followup_clause": "not-idempotent",
+    "nontrivial": lambda c, r: True,
+    "explanation": "oracle: a module without JSX (and without defineComponent calls under resolveType) must come back identical; otherwise denote(input) and evalOut(real output) must agree everywhere outside the lowered JSX expressions once the inserted imports/helper/temporaries are stripped (skeleton); every printed output is fed back and must come back unchanged",
 }
